@@ -230,6 +230,19 @@ def run_case(case, res):
                 try:
                     if route == "copy_to_self":
                         new = src.copy_to(target, before=before, deep=deep)
+                    elif not typed and hasattr(target, "append_child") and rng.random() < 0.35:
+                        # the shortcut routes: at either end, or relative to a child of the target
+                        anchor = rng.choice(kb) if kb and rng.random() < 0.6 else None
+                        if anchor is not None:
+                            which = rng.choice(["prepend_sibling", "append_sibling"])
+                            i = next(j for j, c in enumerate(kb) if c is anchor)
+                            before = anchor if which == "prepend_sibling" else (kb[i + 1] if i + 1 < len(kb) else None)
+                            new = getattr(anchor, which)(src, deep=deep)
+                        else:
+                            which = rng.choice(["append_child", "prepend_child"])
+                            before = None if which == "append_child" else True
+                            new = getattr(target, which)(src, deep=deep)
+                        res.count(f"add_node_via:{which}")
                     else:
                         new = target.add(src, before=before, deep=deep if rng.random() < 0.8 else (deep or None))
                 except Exception as e:
